@@ -126,6 +126,9 @@ int main(int argc, char *argv[])
 
         // If UDP is used the packets starts with an encapsulation number
         if (use_udp) {
+            if (res < AVTP_UDP_HEADER_LEN) {
+                continue;
+            }
             udp_pdu = pdu;
             udp_seq_num = Avtp_Udp_GetEncapsulationSeqNo((Avtp_Udp_t *)udp_pdu);
             cf_pdu = pdu + AVTP_UDP_HEADER_LEN;
@@ -134,14 +137,27 @@ int main(int argc, char *argv[])
             cf_pdu = pdu;
         }
 
+        // Ignore packets that are too short to hold the control format header
+        if ((uint64_t)res < proc_bytes + AVTP_NTSCF_HEADER_LEN) {
+            continue;
+        }
+
         // Check if the packet is a control format packet (i.e. NTSCF or TSCF)
         subtype = Avtp_CommonHeader_GetSubtype((Avtp_CommonHeader_t*)cf_pdu);
         if (subtype == AVTP_SUBTYPE_TSCF){
+            if ((uint64_t)res < proc_bytes + AVTP_TSCF_HEADER_LEN) {
+                continue;
+            }
             proc_bytes += AVTP_TSCF_HEADER_LEN;
             msg_length = Avtp_Tscf_GetStreamDataLength((Avtp_Tscf_t*)cf_pdu);
         } else {
             proc_bytes += AVTP_NTSCF_HEADER_LEN;
             msg_length = Avtp_Ntscf_GetNtscfDataLength((Avtp_Ntscf_t*)cf_pdu);
+        }
+
+        // Ignore packets that are too short to hold the ACF GPC header
+        if ((uint64_t)res < proc_bytes + AVTP_GPC_HEADER_LEN) {
+            continue;
         }
 
         // Check if the control packet payload is a ACF GPC.
@@ -156,9 +172,13 @@ int main(int argc, char *argv[])
         // Parse the GPC Packet and print contents on the STDOUT
         gpc_code = Avtp_Gpc_GetGpcMsgId((Avtp_Gpc_t*)acf_pdu);
         acf_msg_length = Avtp_Gpc_GetAcfMsgLength((Avtp_Gpc_t*)acf_pdu);
-        if (acf_msg_length * 4 <= MAX_MSG_SIZE) {
+        // The message must lie inside the received data; it need not be NUL terminated
+        if (acf_msg_length * 4 >= AVTP_GPC_HEADER_LEN &&
+            acf_msg_length * 4 <= MAX_MSG_SIZE &&
+            proc_bytes + acf_msg_length * 4 <= (uint64_t)res) {
             recd_msg = (char *) acf_pdu + AVTP_GPC_HEADER_LEN;
-            printf("%s : GPC Code %ld\n", recd_msg, gpc_code);
+            printf("%.*s : GPC Code %ld\n", (int)(acf_msg_length * 4 - AVTP_GPC_HEADER_LEN),
+                   recd_msg, gpc_code);
         }
     }
 
